@@ -29,6 +29,28 @@ This time the change must belong to one of these classes (say which one in the R
 Never use `git stash` (it is shared between all worktrees of /repo and other agents are working concurrently); switch
 between changed and unchanged state with `git diff > SEED/patch.diff; git checkout -- .; ...; git apply SEED/patch.diff`.
 """,
+ 5: """## This is the FIFTH seeding round: aim for what the earlier rounds did not try
+
+Earlier rounds already used these mechanisms for this property -- do not repeat them (pick a different function / code path):
+%(used)s
+This time the change must belong to one of these classes (say which one in the README):
+ (h) RARELY USED OPTION / CONFIGURATION: wrong only under a non-default option value or a combination of two options
+     (command-line flag, XML option, attribute, optional argument with a default, environment variable);
+ (i) SHARED HELPER: the edit is in a helper that the anchored code merely USES (tools/: Table, Property, Tokenizer, getline,
+     lexical casts, linalg, random, Graph; csg/: Topology, Bead, Molecule, BoundaryCondition, NBList, readers/writers;
+     xtp/: Job, QMState, checkpoint helpers, ...) and changes its behaviour only for a specific argument shape that this
+     property's code produces in special situations;
+ (j) ERROR CONTRACT: an input that must be rejected/reported is silently accepted (or a valid one rejected, or the wrong
+     thing reported, or the error comes after a partial side effect) -- only for a specific shape of input;
+ (k) SIZE / COUNT BOUNDARY: wrong only from a certain size on (more than N elements, frames, threads, jobs, digits, columns,
+     characters in a name or line; a count crossing a power of two or a buffer/cache/chunk size; an index needing more
+     than 5 digits in a fixed-width format);
+ (l) ORDER DEPENDENCE: wrong only when independent items arrive in an unusual order (unsorted ids, descending grid,
+     interactions declared in another order than used, a later item referring to an earlier one).
+Never use `git stash` (it is shared between all worktrees of /repo and other agents are working concurrently); switch
+between changed and unchanged state with `git diff > SEED/patch.diff; git checkout -- .; ...; git apply SEED/patch.diff`.
+When you wait for a build, run ninja synchronously; do NOT write wait loops with pgrep (they match other agents' shells).
+""",
 }
 
 
